@@ -142,14 +142,16 @@ def run_tlc(module, cfg=None, workers=4, timeout=600, env_extra=None, simulate=N
     out = p.stdout.decode("utf-8", "replace")
     shutil.rmtree(meta, ignore_errors=True)
     r.output = out
-    pref = '<<"%s", ' % marker
+    r.marked = {}
     for line in out.splitlines():
-        if line.startswith(pref) and line.endswith(">>"):
-            body = line[len(pref):-2]
+        mm = re.match(r'^<<"([A-Z]+)", (".*")>>$', line)
+        if mm:
             try:
-                r.cases.append(json.loads(json.loads(body)))
+                obj = json.loads(json.loads(mm.group(2)))
             except Exception as e:  # pragma: no cover
                 raise ToolError("cannot parse TLC case line: %s (%s)" % (line[:200], e))
+            r.marked.setdefault(mm.group(1), []).append(obj)
+    r.cases = r.marked.get(marker, [])
     m = re.findall(r"(\d+) states generated, (\d+) distinct states found", out)
     if m:
         r.generated, r.distinct = int(m[-1][0]), int(m[-1][1])
